@@ -630,3 +630,101 @@ def rule_no_merge(prog):
         out.add(b["d"], "completion items are neither merged by key nor removed after they were collected", bad is None,
                 c.loc((bad or b)["sp"]), why)
     return out
+
+
+# ------------------------------------------------------------------ CURSOR-CMP
+
+def rule_cursor_cmp(prog):
+    """A token lies *before* the cursor iff its range starts before the cursor offset (equivalently, for a non-empty
+    token, ends at or before it).  Every ordering comparison between a bound of a Token's byte range and the cursor
+    offset in the request handlers is written in one of the four forms that implement this: start < i, start >= i,
+    end <= i, end > i (either operand order).  The other four (start <= i, start > i, end < i, end >= i) treat a token that
+    starts exactly at the cursor as lying before it (or one that ends at the cursor as lying behind it)."""
+    out = Out("CURSOR-CMP")
+    c = prog.lsp
+    bodies = [b for b in c.bodies if b["p"].startswith("lsp4spl::features") and "/tests" not in c.file_of(b["sp"]) and b["k"] in ("fn", "assoc_fn")]
+
+    def is_cursor_field(e):
+        e = hir.strip_ref(e)
+        while e.get("k") == "Unary" and e.get("op") in ("*", "Deref", "deref"):
+            e = hir.strip_ref(e["e"])
+        if e.get("k") == "Field" and e["name"] == "index":
+            t = c.tstr(e["base"]["t"]) + "".join(c.tstr(a["to"]) for a in e["base"].get("adj") or [])
+            return "DocumentCursor" in t
+        return False
+
+    def local_id(e):
+        e = hir.strip_ref(e)
+        while e.get("k") == "Unary":
+            e = hir.strip_ref(e["e"])
+        pl = hir.path_local(e)
+        return pl["id"] if pl else None
+
+    cursor = set()    # (fn path, binding id)
+    pidx = {}
+    for b in bodies:
+        ids = []
+        for pp in b["params"]:
+            bs = list(hir.pat_bindings(pp))
+            ids.append(bs[0]["id"] if len(bs) == 1 and "usize" in c.tstr(bs[0]["bt"]) else None)
+        pidx[b["p"]] = ids
+    changed = True
+    rounds = 0
+    while changed and rounds < 8:
+        changed = False
+        rounds += 1
+        for b in bodies:
+            # locals bound to the cursor offset
+            for l in hir.nodes(b["body"], "Let"):
+                if l["pat"].get("k") == "Binding" and l.get("init") is not None:
+                    if is_cursor_field(l["init"]) or (b["p"], local_id(l["init"])) in cursor:
+                        if (b["p"], l["pat"]["id"]) not in cursor:
+                            cursor.add((b["p"], l["pat"]["id"]))
+                            changed = True
+            for call in hir.nodes(b["body"]):
+                if call.get("k") not in ("Call", "MethodCall"):
+                    continue
+                hb = hir.local_callee_body(prog, call)
+                if hb is None or hb["p"] not in pidx:
+                    continue
+                args = ([call["recv"]] if call.get("k") == "MethodCall" else []) + list(call["args"])
+                for i, a in enumerate(args):
+                    if i < len(pidx[hb["p"]]) and pidx[hb["p"]][i] is not None:
+                        if is_cursor_field(a) or (b["p"], local_id(a)) in cursor:
+                            if (hb["p"], pidx[hb["p"]][i]) not in cursor:
+                                cursor.add((hb["p"], pidx[hb["p"]][i]))
+                                changed = True
+
+    def bound_of_token(e):
+        """`<Token>.range.start|end` -> 'start'/'end'"""
+        e = hir.strip_ref(e)
+        if e.get("k") == "Field" and e["name"] in ("start", "end"):
+            r = hir.strip_ref(e["base"])
+            if r.get("k") == "Field" and r["name"] == "range" and hir.adt_path(c, r["base"]["t"]) == "spl_frontend::tokens::Token":
+                return e["name"]
+        return None
+
+    GOOD = {("start", "<"), ("start", ">="), ("end", "<="), ("end", ">")}
+    FLIP = {"<": ">", ">": "<", "<=": ">=", ">=": "<="}
+    n = 0
+    for b in bodies:
+        for cmp_ in hir.nodes(b["body"], "Binary"):
+            if cmp_["op"] not in FLIP:
+                continue
+            lb, rb = bound_of_token(cmp_["l"]), bound_of_token(cmp_["r"])
+            lc = is_cursor_field(cmp_["l"]) or (b["p"], local_id(cmp_["l"])) in cursor
+            rc = is_cursor_field(cmp_["r"]) or (b["p"], local_id(cmp_["r"])) in cursor
+            if lb and rc:
+                form = (lb, cmp_["op"])
+            elif rb and lc:
+                form = (rb, FLIP[cmp_["op"]])
+            else:
+                continue
+            n += 1
+            out.add(b["d"], "token/cursor comparison puts a token that starts at the cursor behind it", form in GOOD, c.loc(cmp_["sp"]),
+                    "`token.range.%s %s cursor`: with this form a token that starts exactly at the cursor counts as lying before it "
+                    "(or one that ends at the cursor as lying behind it); e.g. the comma right behind the cursor is counted and the "
+                    "next parameter is marked active" % form)
+    if n == 0:
+        out.missing("comparisons of a token bound with the cursor offset in lsp4spl::features")
+    return out
